@@ -1,5 +1,6 @@
 import FcpptModel.Prelude.Proto
 import FcpptModel.Gen.Scalar
+import FcpptModel.Spec.C06
 /-!
 Driver for C06 (and the scalar part of C01): runs the definitions that `tools/cxx2lean.py`
 generated from /repo's headers.
@@ -73,7 +74,18 @@ def canonName (f : String) : String :=
   | ["truncation", "check", d, s] => "truncation_check_" ++ canonTy d ++ "_" ++ canonTy s
   | _ => f
 
-def lookup1 (f : String) : Option (Int → String) := table1.lookup (canonName f)
+/-- `bool` as destination or source has no translated instantiation (it is not one of the modelled integer types): the
+specification itself (`truncSpec` with the one-bit unsigned type) is the model there. -/
+def boolTy : IntTy := ⟨false, 1⟩
+
+def lookup1 (f : String) : Option (Int → String) :=
+  match f.splitOn "_" with
+  | ["truncation", "check", "b", _] => some (fun x => showOpt (.ok (Fcppt.C06.truncSpec boolTy x)))
+  | ["truncation", "check", d, "b"] =>
+    if ["u8", "u16", "u32", "u64", "i8", "i16", "i32", "i64"].contains d then
+      some (fun x => if boolTy.InRange x then showOpt (.ok (some x)) else "bad-op")
+    else none
+  | _ => table1.lookup (canonName f)
 
 def handle (toks : List String) : String :=
   match toks with
